@@ -1430,7 +1430,9 @@ func paIllTyped(r *rng, lex []string, n int) (out [][]string, what []string) {
 				nl, w = repl(i, pick(r, []string{"+", "&", "*", "or", "-"})), fmt.Sprintf("operator %s replaced #%d", lex[i], i)
 			}
 		case 4: // a logical operator becomes a comparison / arithmetic
-			if is := idx(func(i int) bool { return paLogOps[lex[i]] && inWhere(i) && lex[i-1] != "between" && (i < 2 || lex[i-2] != "between") }); len(is) > 0 {
+			if is := idx(func(i int) bool {
+				return paLogOps[lex[i]] && inWhere(i) && lex[i-1] != "between" && (i < 2 || lex[i-2] != "between")
+			}); len(is) > 0 {
 				i := pick(r, is)
 				nl, w = repl(i, pick(r, []string{"=", "+", ">", "^="})), fmt.Sprintf("operator %s replaced #%d", lex[i], i)
 			}
@@ -1440,7 +1442,9 @@ func paIllTyped(r *rng, lex []string, n int) (out [][]string, what []string) {
 				nl, w = ins(i, "!"), fmt.Sprintf("! inserted #%d", i)
 			}
 		case 6: // unknown function / wrong argument count
-			if is := idx(func(i int) bool { return i+1 < len(lex) && lex[i+1] == "(" && c17IsWord(lex[i]) && lex[i] != "in" && lex[i] != "put" }); len(is) > 0 {
+			if is := idx(func(i int) bool {
+				return i+1 < len(lex) && lex[i+1] == "(" && c17IsWord(lex[i]) && lex[i] != "in" && lex[i] != "put"
+			}); len(is) > 0 {
 				i := pick(r, is)
 				if r.chance(1, 2) {
 					nl, w = repl(i, "nosuch"), fmt.Sprintf("function %s -> nosuch #%d", lex[i], i)
@@ -1580,6 +1584,13 @@ var paAliasStmts = []string{
 	"select zq1 + 'x' as zq0, key as zq1 where zq0 = 1",
 	"select zq1 + 'x' as zq0, zq0 * 2 as zq2, key as zq1 where key > 'a'",
 	"select zq0 + 1 as zq2, zq1 + 'x' as zq0, key as zq1, zq2 * 2 as zq3 where key > 'a'",
+	"select zq0 + 1 as zq2, zq1 + 'x' as zq0, key as zq1 where key > 'a'",
+	"select zq0 + 'y' as zq2, zq1 + 'x' as zq0, key as zq1 where zq2 > 'a' order by zq0",
+	"select zq2 + 'z' as zq3, zq0 + 'y' as zq2, zq1 + 'x' as zq0, key as zq1 where zq3 ^= 'k' order by zq3 desc limit 2",
+	"select key as zq1, zq1 + 'x' as zq0 where zq0 > 1",
+	"select key as zq1, zq1 + 'x' as zq0 where zq0 > 'a' order by zq0",
+	"select zq1 + 'x' as zq0, key as zq1, count(1) as zq2 where key ^= 'k' group by zq0, zq1",
+	"select zq0 + 1 as zq3, zq1 + 'x' as zq0, key as zq1, count(1) as zq2 where key ^= 'k' group by zq3, zq0, zq1",
 	"select key as zq0, value as zq0 where zq0 = 'k1'",
 	"select is_int(value) as zq0 where zq0",
 	"select is_int(value) as zq0 where !zq0 & zq0",
